@@ -121,7 +121,7 @@ def generate(ctx):
     pairs = []
     for f in gen.FLOAT_POOL:
         x = gen.bits_to_float(f)
-        if abs(x) < 2.0 ** 70 and x == int(x):
+        if abs(x) < 2.0 ** 70:
             for d in (-1, 0, 1):
                 z = int(x) + d
                 if 0 <= z <= gen.U64_MAX:
